@@ -147,8 +147,12 @@ def run_equiv(pairs, timeout: int = 3000):
 
 def report(rep: core.Report, pairs, timeouts, mm, skips, stats, extra_key=None):
     by = {o['pid']: (o, x, meta) for (o, x, meta) in pairs}
+    skips = list(skips)
     for (pid, idx, clause, merr) in mm:
         o, x, meta = by[pid]
+        if clause == 'model-raises' and merr in ('TypeError', 'ValueError') and progrun.has_big(o['inputs'][idx - 1]['args']):
+            skips.append((pid, idx, 'skip', 'WideValue'))
+            continue
         key = {'clause': clause, 'config': meta['config']}
         if extra_key:
             key.update(extra_key(meta, clause))
